@@ -62,6 +62,7 @@ func keyBytes(r *hx.Rand, n int) []byte {
 func gen(g *hx.Gen) {
 	n := g.Count(9000, 300000)
 	r := g.R
+	var cv bfCover
 	for i := 0; i < n; i++ {
 		switch i % 9 {
 		case 0: // TEA
@@ -105,7 +106,11 @@ func gen(g *hx.Gen) {
 			}
 			g.Stat(fmt.Sprintf("blowfish.keylen.%s", bucket(kl, 1, 56)))
 			g.Stat("cipher.blowfish")
-			g.Emit("blk cipher=blowfish key=%s src=%s", hx.Hex(keyBytes(r, kl)), hx.Hex(blocks(r, 8)))
+			key := keyBytes(r, kl)
+			if kl >= 1 && kl <= 56 {
+				cv.expand(key, nil)
+			}
+			g.Emit("blk cipher=blowfish key=%s src=%s", hx.Hex(key), hx.Hex(blocks(r, 8)))
 		case 4: // salted Blowfish: keys up to 80 bytes, salts 0..40
 			kl := r.Range(1, 80)
 			if r.Chance(1, 10) {
@@ -122,7 +127,11 @@ func gen(g *hx.Gen) {
 				sl = r.PickInt(1, 2, 3, 5, 7, 40)
 			}
 			g.Stat("cipher.blowfish-salted")
-			g.Emit("blk cipher=blowfish-salted key=%s salt=%s src=%s", hx.Hex(keyBytes(r, kl)), hx.Hex(keyBytes(r, sl)), hx.Hex(blocks(r, 8)))
+			key, salt := keyBytes(r, kl), keyBytes(r, sl)
+			if sl > 0 || kl <= 56 {
+				cv.expand(key, salt)
+			}
+			g.Emit("blk cipher=blowfish-salted key=%s salt=%s src=%s", hx.Hex(key), hx.Hex(salt), hx.Hex(blocks(r, 8)))
 		case 5: // CAST5
 			kl := 16
 			if r.Chance(1, 8) {
@@ -172,8 +181,23 @@ func gen(g *hx.Gen) {
 			g.Emit("blk cipher=rc2 key=%s t1=%d src=%s", hx.Hex(keyBytes(r, kl)), t1, hx.Hex(blocks(r, 8)))
 		}
 	}
+	// S-box index coverage: entries of Blowfish's INITIAL tables (4 × 256) read before the key
+	// schedule overwrites them, over all keys of this run (measured on an instrumented copy, cover.go).
+	// CAST5 S1–S4 (16 lookups per box and block), S5–S8 (40 per box and key), RC2 PITABLE (≥128 per
+	// key) and Twofish q0/q1 (all 256 entries per key) are static tables indexed pseudo-randomly.
+	g.StatN("blowfish.initial-sbox-entries-read.of-1024", cv.count())
+	for k := 0; k < 4; k++ {
+		c := 0
+		for _, h := range cv.hit[k] {
+			if h {
+				c++
+			}
+		}
+		g.StatN(fmt.Sprintf("blowfish.initial-s%d-entries-read.of-256", k), c)
+	}
 }
 
+// (coverage statistics are emitted at the end of gen)
 func bucket(v, lo, hi int) string {
 	if v < lo {
 		return "below"
